@@ -463,7 +463,7 @@ theorem uk_append_new (ms : List (Bytes × Node)) (k : Bytes) (v : Node) (h : UK
 
 theorem uk_increment (t v : Node) (h : UK t) : UK (increment t v).1 := by
   unfold increment
-  cases v <;> cases t <;> first | exact h | exact UK.int _ | exact UK.f64 _
+  cases v <;> cases t <;> first | exact h | exact UK.int _ | exact UK.f64 _ | (dsimp only; split <;> first | exact h | exact UK.int _)
 
 theorem uk_insertPlain (parent : Node) (last : Bytes) (op : OpK) (v : Node) (h : UK parent) (hv : UK v) :
     UK (insertPlain parent last op v).1 := by
